@@ -95,4 +95,10 @@ theorem src_C15_matching (srcW refW : List (Option Rat)) (force : Bool) (d tol :
     (npAny srcW && npAny refW && !force) = match_useWavelengths (npAny srcW) (npAny refW) force ∧
       decide (tol < d) = match_tooFar d tol ∧ greedyStepsModel = match_greedySteps := ⟨rfl, rfl, rfl⟩
 
+/-- `RasterCompare._get_image_stats` (C11): the "Mean" entry of a statistic is the source's fold - start at
+    `sum_over_bands.get(k, 0)`, add every band's value with `+`, divide by the number of compared bands -/
+theorem src_C11_mean_row (vals : List (Option Rat)) :
+    meanRow vals = (vals.foldl cmp_meanAcc cmp_meanStart).map (fun t => cmp_meanRow t (vals.length : Rat)) := rfl
+
+
 end Homonim
